@@ -7,6 +7,8 @@ import WhVerif.Lemmas.C01WitnessMain
 import WhVerif.Lemmas.C01WitnessAlleles
 import WhVerif.Lemmas.C01Input
 import WhVerif.Lemmas.C01InputSort
+import WhVerif.Lemmas.C01CkptMain
+import WhVerif.Lemmas.C01U32
 /-!
 # C01 — property theorems (about the model `WhVerif.C01` of `PedigreeDPTable`)
 
@@ -266,5 +268,297 @@ example : mkInstE [100, 250] [{ ind := 0, variants := [(250, 0, 1), (100, 1, 1)]
     = .error .variantsUnsorted := by rfl
 example : mkInstE [100, 250] [{ ind := 0, variants := [(90, 0, 1), (100, 1, 1)] }] 1 [] [] []
     = .error .positionNotAColumn := by rfl
+
+
+/-! ## `compute_table` as coded: stored backtrace tables, √n check-pointing, backtrace by recomputation
+
+Model/C01Ckpt.lean mirrors the control flow of `PedigreeDPTable::compute_table`: the forward pass keeps only every
+`k`-th projection column (with its `index_backtrace_table` / `transmission_backtrace_table`), the backtrace
+recomputes the columns between two check-points when it reaches them and frees them again; a null-pointer
+dereference or a failing `assert` is rendered as `none`.  The visiting order of the bipartition indices is a
+parameter: `grayOrd` (the code's `ColumnIndexingIterator`) or `idxOrd` (the order of the older model `witness`). -/
+
+/-- **Check-pointing is transparent**: for every instance, every visiting order and every check-point spacing
+`k ≥ 1` (the code uses `⌊√n⌋`), the check-pointed forward pass + recomputing backtrace return exactly the index path
+read off the table that keeps every column.  No hypothesis on the instance: in particular no null pointer is
+dereferenced and no `assert` of `compute_table` fires, whatever the overlap structure of the reads. -/
+theorem ckpt_transparent (I : Inst) (ord : Ord) (k : Nat) (hk : 1 ≤ k) : ckptPathK I ord k = fullPath I ord :=
+  ckptPathK_eq I ord k hk
+
+/-- hence the result does not depend on the spacing -/
+theorem ckpt_spacing_irrelevant (I : Inst) (ord : Ord) (k k' : Nat) (hk : 1 ≤ k) (hk' : 1 ≤ k') :
+    ckptPathK I ord k = ckptPathK I ord k' := by
+  rw [ckptPathK_eq I ord k hk, ckptPathK_eq I ord k' hk']
+
+/-- **Refinement of the full-table model.**  Run in index order, the check-pointed backtrace with stored
+arg-minima returns exactly the index path of `witnessPath` (Model/C01Witness.lean: all projection tables kept,
+arg-minima recomputed) — for every instance and every `k ≥ 1`. -/
+theorem ckpt_refines_witnessPath (I : Inst) (k : Nat) (hk : 1 ≤ k) : ckptPathK I idxOrd k = witnessPath I :=
+  ckptPathK_idx I k hk
+
+/-- … and exactly `witness` (bipartition read off by `get_optimal_partitioning`, where the LAST column of a read
+wins, vs. the model's first column), for sorted reads that lie inside the matrix -/
+theorem ckpt_refines_witness (I : Inst) (h : WF I) (hs : InCols I) (k : Nat) (hk : 1 ≤ k) :
+    ckptWitnessK I idxOrd k = witness I :=
+  ckptWitnessK_idx I h hs k hk
+
+/-- in any admissible visiting order — in particular the Gray-code order of the code — the stored backtrace
+tables lead exactly where the recomputed arg-minima (first minimum in visiting order) lead -/
+theorem ckpt_refines_recomputation (I : Inst) (ord : Ord) (hord : OrdOk ord) (k : Nat) (hk : 1 ≤ k) :
+    ckptPathK I ord k = witnessPathO I ord :=
+  ckptPathK_eq_witnessPathO I ord hord k hk
+
+theorem grayOrd_admissible : OrdOk grayOrd := grayOrd_ok
+theorem idxOrd_admissible : OrdOk idxOrd := idxOrd_ok
+
+/-- `dp_witness` for the code's structure: the bipartition and transmission vector that `compute_table` /
+`get_optimal_partitioning` return (any admissible visiting order, any spacing `k ≥ 1`) are a well-formed solution
+achieving exactly the reported optimum -/
+theorem ckpt_dp_witness (I : Inst) (h : WF I) (ord : Ord) (hord : OrdOk ord) (k : Nat) (hk : 1 ≤ k)
+    (β : List Bool) (τ : List Nat) (hw : ckptWitnessK I ord k = some (β, τ)) :
+    β.length = I.nreads ∧ τ.length = I.ncols ∧ (∀ t ∈ τ, t < I.ntrans) ∧ totalCost I β τ = dpCost I :=
+  WhVerif.C01.ckpt_dp_witness I h ord hord k hk β τ hw
+
+/-- the code's instance: Gray-code order, spacing `⌊√n⌋` -/
+theorem ckpt_dp_witness_code (I : Inst) (h : WF I) (β : List Bool) (τ : List Nat)
+    (hw : ckptWitness I = some (β, τ)) :
+    β.length = I.nreads ∧ τ.length = I.ncols ∧ (∀ t ∈ τ, t < I.ntrans) ∧ totalCost I β τ = dpCost I := by
+  by_cases h0 : I.ncols = 0
+  · -- no column: the spacing is 0 and nothing is computed
+    have hp : ckptPathK I grayOrd (isqrt I.ncols) = ckptPathK I grayOrd 1 := by
+      rw [ckptPathK_zero I grayOrd _ h0, ckptPathK_zero I grayOrd _ h0]
+    have hw' : ckptWitnessK I grayOrd 1 = some (β, τ) := by
+      unfold ckptWitness ckptWitnessK at hw
+      unfold ckptWitnessK
+      rw [← hp]; exact hw
+    exact WhVerif.C01.ckpt_dp_witness I h grayOrd grayOrd_ok 1 (Nat.le_refl _) β τ hw'
+  · exact WhVerif.C01.ckpt_dp_witness I h grayOrd grayOrd_ok _ (isqrt_pos _ (by omega)) β τ hw
+
+/-- `witness_none_iff` for the code's structure: `compute_table` has no path exactly when the DP reports
+infeasibility — never because of a missing (deleted) column -/
+theorem ckpt_witness_none_iff (I : Inst) (ord : Ord) (hord : OrdOk ord) (k : Nat) (hk : 1 ≤ k) :
+    ckptWitnessK I ord k = none ↔ dpCost I = none :=
+  WhVerif.C01.ckpt_witness_none_iff I ord hord k hk
+
+/-- `get_super_reads` on the check-pointed path: column `c` is `get_alleles` for the restriction of the returned
+bipartition to the reads of column `c` under the returned transmission value — so `getAlleles_none_iff` and
+`nontie_forced` speak about the super reads the solver outputs -/
+theorem ckpt_superreads (I : Inst) (h : WF I) (ord : Ord) (hord : OrdOk ord) (k : Nat) (hk : 1 ≤ k)
+    (path : List (Nat × Nat)) (hp : ckptPathK I ord k = some path) :
+    superReadsOf I path = (List.range I.ncols).map (fun c =>
+      getAlleles I c (restrict (partOf I path) (I.activeAt c)) ((path.map (·.2)).getD c 0)) :=
+  WhVerif.C01.ckpt_superreads I h ord hord k hk path hp
+
+/-- `nontie_forced` transferred: in the super reads of the check-pointed solver, an allele not flagged as tie agrees
+with every cost-optimal admissible assignment of its column under the returned `(β, τ)` -/
+theorem ckpt_nontie_forced (I : Inst) (h : WF I) (ord : Ord) (hord : OrdOk ord) (k : Nat) (hk : 1 ≤ k)
+    (path : List (Nat × Nat)) (hp : ckptPathK I ord k = some path) (c : Nat) (hc : c < I.ncols)
+    (L : List (Nat × Nat)) (hL : (superReadsOf I path).getD c none = some L)
+    (ind hp' : Nat) (hind : ind < I.nind) (hh : hp' = 0 ∨ hp' = 1) :
+    let bs := restrict (partOf I path) (I.activeAt c)
+    let t := (path.map (·.2)).getD c 0
+    (reported L ind hp' = 0 ∨ reported L ind hp' = 1 ∨ reported L ind hp' = 3) ∧
+    (reported L ind hp' ≠ 3 → ∀ ag, IsOptAssign I c bs t ag → bitOf ag.1 (h2p I t ind hp') = reported L ind hp') ∧
+    (reported L ind hp' = 3 →
+        (∃ ag, IsOptAssign I c bs t ag ∧ bitOf ag.1 (h2p I t ind hp') = 0) ∧
+        (∃ ag, IsOptAssign I c bs t ag ∧ bitOf ag.1 (h2p I t ind hp') = 1)) := by
+  intro bs t
+  rw [WhVerif.C01.ckpt_superreads I h ord hord k hk path hp, getD_map_range, if_pos hc] at hL
+  exact WhVerif.C01.nontie_forced I c bs t L hL ind hp' hind hh
+
+/-- `getAlleles_none_iff` transferred -/
+theorem ckpt_superread_none_iff (I : Inst) (h : WF I) (ord : Ord) (hord : OrdOk ord) (k : Nat) (hk : 1 ≤ k)
+    (path : List (Nat × Nat)) (hp : ckptPathK I ord k = some path) (c : Nat) (hc : c < I.ncols) :
+    (superReadsOf I path).getD c none = none ↔ assignments I c ((path.map (·.2)).getD c 0) = [] := by
+  rw [WhVerif.C01.ckpt_superreads I h ord hord k hk path hp, getD_map_range, if_pos hc]
+  exact WhVerif.C01.getAlleles_none_iff I c _ _
+
+/-- real inputs satisfy the side condition of `ckpt_refines_witness` -/
+theorem mkInst_inCols (positions : List Nat) (reads : List RawRead) (nind : Nat) (trios : List (Nat × Nat × Nat))
+    (geno : List (List (List (Option Nat)))) (recomb : List Nat) (I : Inst)
+    (h : mkInst positions reads nind trios geno recomb = some I) : InCols I := by
+  have s := WhVerif.C01.mkInst_spans h
+  exact fun r hr => ⟨s.first_le_last r hr, s.last_lt r hr⟩
+
+/-- **the solver as coded, on its real input**: whenever the constructor accepts a ReadSet, the bipartition and
+transmission vector that `compute_table` (Gray-code order, `⌊√n⌋` check-pointing, stored backtrace tables) and
+`get_optimal_partitioning` return achieve the TRUE minimum of the (Ped)MEC objective — no hypothesis left -/
+theorem ckpt_witness_optimal_raw (positions : List Nat) (reads : List RawRead) (nind : Nat)
+    (trios : List (Nat × Nat × Nat)) (geno : List (List (List (Option Nat)))) (recomb : List Nat) (I : Inst)
+    (h : mkInst positions reads nind trios geno recomb = some I) (β : List Bool) (τ : List Nat)
+    (hw : ckptWitness I = some (β, τ)) :
+    β.length = I.nreads ∧ τ.length = I.ncols ∧ (∀ t ∈ τ, t < I.ntrans) ∧ totalCost I β τ = optCost I := by
+  have hwf := WhVerif.C01.mkInst_wf h
+  have := ckpt_dp_witness_code I hwf β τ hw
+  rw [dp_optimal I hwf] at this
+  exact this
+
+/-- the code's spacing is the integer square root -/
+theorem ckpt_spacing_is_isqrt (n : Nat) : isqrt n * isqrt n ≤ n ∧ n < (isqrt n + 1) * (isqrt n + 1) := isqrt_spec n
+
+/-! Non-vacuity: five columns, so `⌊√5⌋ = 2`: the forward pass keeps columns 0 and 2 (and 3 until the last column
+is done), the backtrace recomputes column 3, then column 1. -/
+def exampleLong : Inst :=
+  { ncols := 5
+    reads := [ { ind := 0, first := 0, last := 2, entries := [(0, 0, 5), (1, 1, 7), (2, 0, 3)] },
+               { ind := 0, first := 1, last := 3, entries := [(1, 0, 4), (2, 1, 6), (3, 1, 2)] },
+               { ind := 0, first := 2, last := 4, entries := [(2, 0, 2), (3, 0, 9), (4, 1, 1)] },
+               { ind := 0, first := 3, last := 4, entries := [(3, 1, 3), (4, 1, 8)] } ]
+    nind := 1
+    trios := []
+    geno := [ List.replicate 5 [none, some 0, none] ]
+    recomb := [0, 0, 0, 0, 0] }
+
+theorem exampleLong_wf : WF exampleLong := by
+  constructor
+  intro r1 r2 h1 h2
+  have hall : ∀ r2, r2 < 4 → ∀ r1, r1 ≤ r2 → (exampleLong.read r1).first ≤ (exampleLong.read r2).first := by
+    decide
+  exact hall r2 h2 r1 h1
+
+theorem exampleLong_inCols : InCols exampleLong := by
+  intro r hr
+  have hall : ∀ r, r < 4 → (exampleLong.read r).first ≤ (exampleLong.read r).last ∧
+      (exampleLong.read r).last < exampleLong.ncols := by decide
+  exact hall r hr
+
+/-- after the forward pass over the columns 0…3 only the check-points 0, 2 and the previous column 3 are stored -/
+example : (fwdLoop exampleLong grayOrd 2 5 4).map (fun T => T.map Option.isSome)
+    = some [true, false, true, true, false] := by decide +kernel
+
+theorem exampleLong_path : ckptPathK exampleLong grayOrd 2 = some [(1, 0), (1, 0), (5, 0), (2, 0), (1, 0)] := by
+  decide +kernel
+
+example : isqrt exampleLong.ncols = 2 := by decide
+example : fullPath exampleLong grayOrd = some [(1, 0), (1, 0), (5, 0), (2, 0), (1, 0)] :=
+  (ckpt_transparent exampleLong grayOrd 2 (by decide)).symm.trans exampleLong_path
+example : ckptPathK exampleLong grayOrd 2 = ckptPathK exampleLong grayOrd 5 :=
+  ckpt_spacing_irrelevant _ _ 2 5 (by decide) (by decide)
+example : witnessPath exampleLong = some [(1, 0), (1, 0), (5, 0), (2, 0), (1, 0)] := by
+  rw [← ckpt_refines_witnessPath exampleLong 2 (by decide)]; decide +kernel
+example : ckptWitnessK exampleLong idxOrd 2 = witness exampleLong :=
+  ckpt_refines_witness _ exampleLong_wf exampleLong_inCols 2 (by decide)
+example : witnessPathO exampleLong grayOrd = some [(1, 0), (1, 0), (5, 0), (2, 0), (1, 0)] :=
+  (ckpt_refines_recomputation exampleLong grayOrd grayOrd_ok 2 (by decide)).symm.trans exampleLong_path
+
+theorem exampleLong_witness : ckptWitness exampleLong = some ([true, false, true, false], [0, 0, 0, 0, 0]) := by
+  decide +kernel
+
+example : totalCost exampleLong [true, false, true, false] [0, 0, 0, 0, 0] = dpCost exampleLong :=
+  (ckpt_dp_witness_code exampleLong exampleLong_wf _ _ exampleLong_witness).2.2.2
+example : totalCost exampleLong [true, false, true, false] [0, 0, 0, 0, 0] = dpCost exampleLong :=
+  (ckpt_dp_witness exampleLong exampleLong_wf grayOrd grayOrd_ok 2 (by decide) _ _ exampleLong_witness).2.2.2
+example : dpCost exampleLong = some 1 := by decide +kernel
+example : ckptWitnessK exampleLong grayOrd 2 ≠ none ∧ dpCost exampleLong ≠ none := by
+  have h : ckptWitnessK exampleLong grayOrd 2 ≠ none := by
+    intro hn
+    have := exampleLong_witness
+    unfold ckptWitness at this
+    rw [show isqrt exampleLong.ncols = 2 from by decide, hn] at this
+    cases this
+  exact ⟨h, fun hd => h ((ckpt_witness_none_iff exampleLong grayOrd grayOrd_ok 2 (by decide)).mpr hd)⟩
+example : ∃ path, ckptPathK exampleLong grayOrd 2 = some path ∧
+    superReadsOf exampleLong path = (List.range exampleLong.ncols).map (fun c =>
+      getAlleles exampleLong c (restrict (partOf exampleLong path) (exampleLong.activeAt c))
+        ((path.map (·.2)).getD c 0)) :=
+  ⟨_, exampleLong_path, ckpt_superreads exampleLong exampleLong_wf grayOrd grayOrd_ok 2 (by decide) _ exampleLong_path⟩
+/-- the hypotheses of `ckpt_nontie_forced` / `ckpt_superread_none_iff` are satisfiable (column 1, individual 0) -/
+example : True := by
+  have h1 := ckpt_nontie_forced exampleLong exampleLong_wf grayOrd grayOrd_ok 2 (by decide) _ exampleLong_path
+    1 (by decide) [(0, 1)] (by decide +kernel) 0 0 (by decide) (Or.inl rfl)
+  have h2 := (ckpt_superread_none_iff exampleLong exampleLong_wf grayOrd grayOrd_ok 2 (by decide) _ exampleLong_path
+    1 (by decide)).symm
+  trivial
+example : InCols exampleInst := mkInst_inCols _ _ _ _ _ _ _ exampleRaw_ok
+example : ∃ β τ, ckptWitness exampleInst = some (β, τ) ∧ totalCost exampleInst β τ = optCost exampleInst := by
+  have h : (ckptWitness exampleInst).isSome = true := by decide +kernel
+  obtain ⟨⟨β, τ⟩, hw⟩ := Option.isSome_iff_exists.mp h
+  exact ⟨β, τ, hw, (ckpt_witness_optimal_raw _ _ _ _ _ _ _ exampleRaw_ok β τ hw).2.2.2⟩
+example : (superReadsOf exampleLong [(1, 0), (1, 0), (5, 0), (2, 0), (1, 0)]).getD 1 none = some [(0, 1)] := by
+  decide +kernel
+
+
+/-! ## 32-bit arithmetic
+
+Every cost of the solver is an `unsigned int`, `UINT_MAX` doubles as "infinite", additions wrap.
+Model/C01U32.lean is the DP in that arithmetic (`dpCost32`, `throws32` = the "Mendelian conflict" exception);
+`ubAll I` = all read weights + the largest genotype cost of every individual in every column + two
+recombinations per trio and column (the recombination term is also added in column 0, where the unbounded model
+ignores it). -/
+
+example : INF32 = 4294967295 := by decide
+
+/-- every value the DP ever forms — each `val` of the inner loop over the previous transmission values, in the
+order the code adds (column cost + previous projection entry, then + recombination), not only the minima it
+keeps — is bounded by the weights, genotype costs and recombination costs of the columns seen so far -/
+theorem dp_values_bounded (I : Inst) (c idx t j x : Nat) (ht : t < I.ntrans) (hj : j < I.ntrans)
+    (h : termO I c (prevOf I c) idx t j = some x) : x ≤ ubUpTo I c :=
+  (values_bounded I c).1 idx t j x ht hj h
+
+/-- … hence every DP cell, every projection entry and the optimum -/
+theorem dp_cells_bounded (I : Inst) (c idx t v : Nat) (ht : t < I.ntrans)
+    (h : dpCell I c (prevOf I c) idx t = some v) : v ≤ ubUpTo I c :=
+  dpCell_bounded I c idx t v ht h
+
+theorem dp_table_bounded (I : Inst) (c k x : Nat) (h : (tableAt I c).getD k none = some x) : x ≤ ubUpTo I c :=
+  (values_bounded I c).2 k x h
+
+theorem dp_optimum_bounded (I : Inst) (v : Nat) (h : dpCost I = some v) : v ≤ ubAll I := dpCost_bounded I v h
+
+/-- **No overflow**: below the bound the DP in wrap-around `unsigned int` arithmetic with `UINT_MAX` as infinity
+returns exactly the value of the unbounded model (`UINT_MAX` standing for "infeasible") -/
+theorem no_overflow (I : Inst) (hb : ubAll I < INF32) : dpCost32 I = enc32 (dpCost I) := dpCost32_eq I hb
+
+/-- … which, for sorted reads, is the true (Ped)MEC optimum -/
+theorem no_overflow_optimal (I : Inst) (h : WF I) (hb : ubAll I < INF32) : dpCost32 I = enc32 (optCost I) := by
+  rw [dpCost32_eq I hb, dp_optimal I h]
+
+/-- every intermediate table of the 32-bit DP is the encoding of the unbounded table -/
+theorem no_overflow_tables (I : Inst) (hb : ubAll I < INF32) (c : Nat) (hc : c < I.ncols) :
+    tableAt32 I c = (tableAt I c).map enc32 := tableAt32_eq I hb c hc
+
+/-- below the bound `get_cost()` never returns `UINT_MAX` for a feasible column: the exception "Mendelian
+conflict" is thrown iff some column admits no allele assignment under any transmission value -/
+theorem conflict32_iff (I : Inst) (hb : ubAll I < INF32) :
+    throws32 I = true ↔ ∃ c, c < I.ncols ∧ ∀ t, t < I.ntrans → assignments I c t = [] := throws32_iff I hb
+
+/-! Non-vacuity, and the bound is not idle: two reads contradicting a homozygous genotype with weight 2^31 each
+cost 2^32 — the 32-bit DP reports 0; with weights summing to `UINT_MAX` the feasible column is taken for a
+Mendelian conflict. -/
+example : ubAll exampleLong = 50 := by decide +kernel
+example : dpCost32 exampleLong = 1 := by
+  rw [no_overflow exampleLong (by decide +kernel)]; decide +kernel
+
+def exampleOverflow (w1 w2 : Nat) : Inst :=
+  { ncols := 1
+    reads := [ { ind := 0, first := 0, last := 0, entries := [(0, 1, w1)] },
+               { ind := 0, first := 0, last := 0, entries := [(0, 1, w2)] } ]
+    nind := 1, trios := [], geno := [[[some 0, none, none]]], recomb := [0] }
+
+example : dpCost (exampleOverflow (2 ^ 31) (2 ^ 31)) = some (2 ^ 32) ∧ dpCost32 (exampleOverflow (2 ^ 31) (2 ^ 31)) = 0 ∧
+    throws32 (exampleOverflow (2 ^ 31) (2 ^ 31)) = false ∧ ubAll (exampleOverflow (2 ^ 31) (2 ^ 31)) = 2 ^ 32 := by
+  decide +kernel
+example : dpCost (exampleOverflow (2 ^ 31) (2 ^ 31 - 1)) = some INF32 ∧
+    throws32 (exampleOverflow (2 ^ 31) (2 ^ 31 - 1)) = true := by decide +kernel
+example : ubAll (exampleOverflow (2 ^ 31) (2 ^ 31 - 2)) < INF32 ∧
+    dpCost32 (exampleOverflow (2 ^ 31) (2 ^ 31 - 2)) = 2 ^ 32 - 2 ∧
+    throws32 (exampleOverflow (2 ^ 31) (2 ^ 31 - 2)) = false := by decide +kernel
+example : ∀ x, dpCost exampleLong = some x → x ≤ 50 := by
+  intro x hx
+  have := dp_optimum_bounded exampleLong x hx
+  rwa [show ubAll exampleLong = 50 from by decide +kernel] at this
+example : ∀ v, dpCell exampleLong 2 (prevOf exampleLong 2) 5 0 = some v → v ≤ ubUpTo exampleLong 2 :=
+  fun v h => dp_cells_bounded exampleLong 2 5 0 v (by decide) h
+example : (dpCell exampleLong 2 (prevOf exampleLong 2) 5 0).isSome = true := by decide +kernel
+example : ∀ x, termO exampleLong 2 (prevOf exampleLong 2) 5 0 0 = some x → x ≤ ubUpTo exampleLong 2 :=
+  fun x h => dp_values_bounded exampleLong 2 5 0 0 x (by decide) (by decide) h
+example : ∀ x, (tableAt exampleLong 2).getD 1 none = some x → x ≤ ubUpTo exampleLong 2 :=
+  fun x h => dp_table_bounded exampleLong 2 1 x h
+example : dpCost32 exampleLong = enc32 (optCost exampleLong) :=
+  no_overflow_optimal exampleLong exampleLong_wf (by decide +kernel)
+example : tableAt32 exampleLong 1 = (tableAt exampleLong 1).map enc32 :=
+  no_overflow_tables exampleLong (by decide +kernel) 1 (by decide)
+example : throws32 exampleLong = false := by decide +kernel
+example : throws32 exampleInst = false ∧ ubAll exampleInst < INF32 := by decide +kernel
 
 end WhVerif.Props.C01
